@@ -708,6 +708,13 @@ func (r *resolution) isCurrentPinSatisfying(ctx context.Context, name resolve.Pa
 	// pin is listed as a candidate.
 	for _, c := range crit.candidates {
 		if c == currentPin {
+			// The pin must also have been made with all of the
+			// extras requested by now.
+			for e := range crit.extras {
+				if !crit.pinnedExtras[e] {
+					return false
+				}
+			}
 			return true
 		}
 	}
@@ -786,6 +793,13 @@ func (r *resolution) attemptToPinCriterion(ctx context.Context, name resolve.Pac
 		for n, c := range criteria {
 			s.criteria.Put(n, c)
 		}
+		// Remember the extras this pin was made with. The candidate's
+		// own dependencies may have merged into its criterion (a
+		// cycle), so fetch it again.
+		pinned, _ := s.criteria.Get(name)
+		pinned = pinned.copy()
+		pinned.pinnedExtras = crit.extras
+		s.criteria.Put(name, pinned)
 		debugf(r.p.rc, "--------------------------------\n")
 		return nil, nil
 	}
@@ -1023,6 +1037,11 @@ type criterion struct {
 	// extras holds the union of all of the extras requested by each
 	// requirement in information.
 	extras map[string]bool
+	// pinnedExtras holds the extras the package was last pinned with. It
+	// is never modified once set; a pin made with fewer extras than are
+	// now requested has to be made again, so that the requirements the
+	// new extras enable are followed.
+	pinnedExtras map[string]bool
 	// incompatibilities holds concrete versions of this package known not
 	// to work. This is populated during backtracking: when candidates are
 	// discovered not to work they are moved from candidates to
@@ -1083,6 +1102,7 @@ func (c criterion) copy() criterion {
 		informationReqs:    c.informationReqs,
 		informationParents: c.informationParents,
 		extras:             extras,
+		pinnedExtras:       c.pinnedExtras,
 		incompatibilities:  incompatibilities,
 		candidates:         c.candidates,
 	}
